@@ -117,13 +117,94 @@ type GoModel struct {
 	posFn      func(token.Pos) string
 }
 
-func (m *GoModel) Service(name string) *Service {
+func (m *GoModel) byName(name string) *Service {
 	for i := range m.Services {
 		if m.Services[i].Name == name {
 			return &m.Services[i]
 		}
 	}
 	return nil
+}
+
+// Service returns the service registered under name. The checker's rules address the services of the
+// self-hosting container by the role they play; the names below are the ids the pinned tree gives those
+// roles. A service id is private to the YAML files, so when an id was renamed the role is found through
+// the constructor that defines it (unique per role).
+func (m *GoModel) Service(name string) *Service { return m.byName(m.RoleID(name)) }
+
+var roleCtor = map[string][2]string{
+	"inputValidator":         {"internal/pkg/input", "NewDefaultValidator"},
+	"stepValidateInput":      {"internal/pkg/compiler", "NewStepValidateInput"},
+	"stepCompileMeta":        {"internal/pkg/compiler", "NewStepCompileMeta"},
+	"stepCompileParams":      {"internal/pkg/compiler", "NewStepCompileParams"},
+	"stepCompileServices":    {"internal/pkg/compiler", "NewStepCompileServices"},
+	"stepCompileDecorators":  {"internal/pkg/compiler", "NewStepCompileDecorators"},
+	"compiler":               {"internal/pkg/compiler", "New"},
+	"imports":                {"internal/pkg/imports", "New"},
+	"tokenChunker":           {"internal/pkg/token", "NewChunker"},
+	"tokenizer":              {"internal/pkg/token", "NewTokenizer"},
+	"tokenStrategyFactory":   {"internal/pkg/token", "NewStrategyFactory"},
+	"fnRegisterer":           {"internal/pkg/token", "NewFuncRegisterer"},
+	"gontainerValueResolver": {"internal/pkg/resolver", "NewFixedValueResolver"},
+	"patternResolver":        {"internal/pkg/resolver", "NewPatternResolver"},
+	"paramResolver":          {"internal/pkg/resolver", "NewParamResolver"},
+	"serviceResolver":        {"internal/pkg/resolver", "NewServiceResolver"},
+	"taggedResolver":         {"internal/pkg/resolver", "NewTaggedResolver"},
+	"valueResolver":          {"internal/pkg/resolver", "NewValueResolver"},
+	"printer":                {"internal/cmd/runner", "NewPrinter"},
+	"stepReadConfig":         {"internal/cmd/runner", "NewStepReadConfig"},
+	"stepCompile":            {"internal/cmd/runner", "NewStepCompile"},
+	"stepValidateOutput":     {"internal/cmd/runner", "NewStepAmalgamated"},
+	"stepCodeGenerator":      {"internal/cmd/runner", "NewStepCodeGenerator"},
+	"runner":                 {"internal/cmd/runner", "NewRunner"},
+	"codeFormatter":          {"internal/pkg/template", "NewCodeFormatter"},
+	"templateBuilder":        {"internal/pkg/template", "NewBuilder"},
+	"argResolver":            {"internal/pkg/resolver", "NewArgResolver"},
+	"primitiveArgResolver":   {"internal/pkg/resolver", "NewArgResolver"},
+}
+
+func ctorMatches(s *Service, want [2]string) bool {
+	if s == nil || s.CtorKind != "func" || s.CtorObj == nil || s.CtorObj.Pkg() == nil {
+		return false
+	}
+	return s.CtorObj.Name() == want[1] && strings.HasSuffix(s.CtorObj.Pkg().Path(), "/"+want[0])
+}
+
+// RoleID maps a role (the id the pinned tree uses) to the id the current tree uses.
+func (m *GoModel) RoleID(role string) string {
+	want, ok := roleCtor[role]
+	if !ok {
+		return role
+	}
+	if s := m.byName(role); s != nil && ctorMatches(s, want) && want[1] != "NewArgResolver" {
+		return role
+	}
+	var cands []*Service
+	for i := range m.Services {
+		if ctorMatches(&m.Services[i], want) {
+			cands = append(cands, &m.Services[i])
+		}
+	}
+	if want[1] == "NewArgResolver" {
+		// two chains share the constructor: the full one contains the @service strategy
+		var out []*Service
+		for _, c := range cands {
+			full := false
+			for _, a := range c.Args {
+				if a.Kind == "service" && ctorMatches(m.byName(a.Name), roleCtor["serviceResolver"]) {
+					full = true
+				}
+			}
+			if full == (role == "argResolver") {
+				out = append(out, c)
+			}
+		}
+		cands = out
+	}
+	if len(cands) == 1 {
+		return cands[0].Name
+	}
+	return role
 }
 
 var helperKinds = map[string]string{
